@@ -596,6 +596,29 @@ func (tb *termTable) extract(a *term, lo, w int) *term {
 			return tb.extract(a.a, lo-a.b.w, w)
 		}
 	}
+	// extraction distributes over bitwise ops at any offset
+	switch a.op {
+	case opBvAnd, opBvOr, opBvXor:
+		return tb.bin(a.op, tb.extract(a.a, lo, w), tb.extract(a.b, lo, w))
+	case opBvNot:
+		return tb.bvnot(tb.extract(a.a, lo, w))
+	case opShl:
+		if a.b.isConst() {
+			c := int(a.b.k)
+			if lo >= c {
+				return tb.extract(a.a, lo-c, w)
+			}
+			if lo+w <= c {
+				return tb.constBV(0, w)
+			}
+		}
+	}
+	if a.op == opZext && lo+w <= a.a.w {
+		return tb.extract(a.a, lo, w)
+	}
+	if a.op == opZext && lo < a.a.w && lo+w > a.a.w {
+		return tb.zext(tb.extract(a.a, lo, a.a.w-lo), w)
+	}
 	// low-bits extraction distributes over bitwise ops and add/sub/mul (lo==0)
 	if lo == 0 {
 		switch a.op {
